@@ -99,6 +99,20 @@ def run(ctx: Ctx) -> Result:
                             if ok != want: B.viol(what + f' vs {lk} lock, excluded {k_} changed / absent at validation', {**ctx_inp, 'cache': vmrun.cache_str(cache2, False), 'scripts': [w.bytes.hex(), l.bytes.hex()]}, want, v)
                         chk2('claim witness', claim[wk], True)
                         chk2('refund witness', refund['ptlc_refund'] if wk.startswith('ptlc') else refund[wk], refund_ok)
+            # the slack threshold is the verifier's: passed per run (additional_flags), it governs the refund branch like the default does
+            wk_ = fam[lk]
+            for thr_, lead in ((10, 30), (10, 5), (3600, 100), (3600, 30), (0, 100000), (60, 30), (60, 100)):
+                t_ = deadline + 5; now_ = t_ - lead
+                if now_ < 0: continue
+                cfg2 = vmrun.Cfg(now=now_, ts=thr_)
+                cache2 = {**sf, 'timestamp': t_}
+                wr_ = (refund['ptlc_refund'] if wk_.startswith('ptlc') else refund[wk_])
+                o2 = vmrun.run_impl(cfg2, cache2, wr_.bytes + l.bytes)
+                f2 = vmrun.fields(o2); got2 = f2['status'] == 'OK' and f2.get('stack') == 'ff'
+                want2 = thr_ <= 0 or lead < thr_
+                res.note_case(('per-run-slack', lk, thr_, lead, rs))
+                if got2 != want2:
+                    B.viol(f'refund witness vs {lk} lock as one script, ts_threshold = {thr_} passed for this run, t - now = {lead}', {**inp, 'lock': lk, 'cfg': cfg2.line(), 'cache': vmrun.cache_str(cache2, False), 'scripts': [wr_.bytes.hex(), l.bytes.hex()]}, want2, o2[:80])
             # cross-pairings at a neutral time
             cache = {**sf, 'timestamp': B.now}
             for wk2, w in stranger.items():          # "any other key is rejected": every witness kind made by a stranger, against every lock kind
